@@ -294,6 +294,7 @@ func existsPathAssuming(fn *ssa.Function, from, to ssa.Instruction, avoid func(s
 	if len(fn.Blocks) == 0 {
 		return false
 	}
+	avoid = withCallSummaries(fn, avoid)
 	b0, idx := fn.Blocks[0], 0
 	if from != nil {
 		b0, idx = from.Block(), instrIndex(from)+1
@@ -395,9 +396,18 @@ func withAnon(fn *ssa.Function) []*ssa.Function {
 	if fn == nil {
 		return nil
 	}
+	out := anonOf(fn)
+	for _, g := range satellitesOf(fn) {
+		out = append(out, anonOf(g)...)
+	}
+	return out
+}
+
+// anonOf returns fn and all nested closures.
+func anonOf(fn *ssa.Function) []*ssa.Function {
 	out := []*ssa.Function{fn}
 	for _, a := range fn.AnonFuncs {
-		out = append(out, withAnon(a)...)
+		out = append(out, anonOf(a)...)
 	}
 	return out
 }
